@@ -95,6 +95,9 @@ impl World for TimerWorld {
     fn id(&self) -> u8 {
         4
     }
+    fn shared_wakers(&self) -> bool {
+        true
+    }
     fn name(&self) -> &'static str {
         "timer"
     }
@@ -108,15 +111,15 @@ impl World for TimerWorld {
         // x: deadline table; y: 0 = harness clock (full u64 range), 1 = MockClock
         for (flavour, mode) in [(FL_LOCAL, 0u8), (FL_SYNC, 0), (FL_SYNC, 1), (FL_CHECKED, 0), (FL_CHECKED, 1)] {
             for y in [0u8, 1] {
-                v.push(Cfg { flavour, mode, x: 1, y, k });
+                v.push(Cfg { flavour, mode, x: 1, y, k, sw: 0 });
             }
         }
-        v.push(Cfg { flavour: FL_CHECKED, mode: 0, x: 0, y: 0, k });
+        v.push(Cfg { flavour: FL_CHECKED, mode: 0, x: 0, y: 0, k, sw: 0 });
         v
     }
     fn enum_configs(&self, tier: Tier) -> Vec<(Cfg, usize)> {
         let k = if tier == Tier::Quick { 3 } else { 4 };
-        vec![(Cfg { flavour: FL_CHECKED, mode: 0, x: 0, y: 0, k }, 200)]
+        vec![(Cfg { flavour: FL_CHECKED, mode: 0, x: 0, y: 0, k, sw: 0 }, 200)]
     }
     fn specs(&self, cfg: &Cfg) -> Vec<OpSpec> {
         let small = cfg.x == 0;
@@ -211,6 +214,7 @@ type MkDelay<M> = dyn for<'a> Fn(&'a GenericTimerService<M>, Duration) -> TFut<'
 
 fn run_any<M: RawMutex>(cfg: &Cfg, ops: &[Op], run: &mut Run, mk_deadline: &MkDeadline<M>, mk_delay: &MkDelay<M>) {
     tls::reset_history();
+    tls::set_shared_b(cfg.sw == 1);
     // a panic of the timer (its pairing heap asserts its own link consistency in debug builds)
     // on a contract respecting history means the heap of registered deadlines is corrupt: without
     // the assertion, registered timers are lost or expire out of order
@@ -393,11 +397,16 @@ fn run_any<M: RawMutex>(cfg: &Cfg, ops: &[Op], run: &mut Run, mk_deadline: &MkDe
                     // the wake log gains exactly the due registered slots, each through its
                     // latest waker, in non-decreasing deadline order
                     let log = tls::op_log();
-                    let expect: Vec<u8> = due.iter().map(|&j| slots[j].wid * 2 + slots[j].last_w).collect();
+                    let expect: Vec<u8> = due.iter().map(|&j| slots[j].waker_id() as u8).collect();
                     let mut sorted_log = log.clone();
                     sorted_log.sort_unstable();
                     let mut sorted_expect = expect.clone();
                     sorted_expect.sort_unstable();
+                    if tls::shared_b() {
+                        // several due futures of one task: how often the shared waker fires is open
+                        sorted_log.dedup();
+                        sorted_expect.dedup();
+                    }
                     if sorted_log != sorted_expect {
                         let missed: Vec<u8> = sorted_expect.iter().copied().filter(|w| !sorted_log.contains(w)).collect();
                         run.violate(
@@ -408,7 +417,8 @@ fn run_any<M: RawMutex>(cfg: &Cfg, ops: &[Op], run: &mut Run, mk_deadline: &MkDe
                                 now, log, expect
                             ),
                         );
-                    } else {
+                    } else if !log.iter().any(|w| *w as usize == tls::SHARED_WAKER) {
+                        // (a wake through the shared waker cannot be attributed to one future)
                         let dls: Vec<u64> = log.iter().map(|w| slots[(*w / 2) as usize].num).collect();
                         if dls.windows(2).any(|p| p[0] > p[1]) {
                             run.violate("C15", "wake-order", format!("check_expirations() woke deadlines in the order {:?}", dls));
